@@ -9,6 +9,7 @@ open Nima.C05
 #print axioms set_attrpath_new_refines
 #print axioms rm_attrpath_refines
 #print axioms set_fresh_goes_last
+#print axioms set_attrpath_entry_appended
 #print axioms docNestedFamily_wf
 #print axioms cex_nested_family
 #print axioms cex_rendered_follows
